@@ -43,6 +43,11 @@ def check(ctx, report):
     from ..textlists import string_array_table
     string_array_table(ctx, report, 'C07.R8', 'ssh')
     banner(ctx, report)
+    # certificate validity bounds (uint64 seconds, all-ones = forever) go through the shared timestamp primitives (tabulation shared with C11.R5)
+    from .c11 import flags_and_timestamps
+    report.rule('C07.R10', 'OpenSSH certificate valid after / valid before: the primitive writes seconds since the epoch in UTC, all-ones for "forever"')
+    flags_and_timestamps(ctx, report, R4='C07.R10', R5='C07.R10')
+    report.floor('C07.R10', 100, 'tabulated flag words and instants')
     report.floor('C07.R1', 80, 'layout comparisons')
 
 
